@@ -26,30 +26,27 @@ theorem C07_answer_mirrors (s : St) (m : AMsg) (info : MsgInfo) (rc : Option Nat
     it leaves every connection's write queue unchanged (with the repaired
     catch-all handler, `Config.answerOnlyRequests`). -/
 theorem handleByCommand_answer (s : St) (cid : Nat) (m : AMsg) (info : MsgInfo) (hr : m.isRequest = false) :
-    ∀ s', handleByCommand s cid m info = .ok s' → outQs s' = outQs s := by
-  intro s' h
-  unfold handleByCommand at h
-  simp only [hr, Bool.false_eq_true, if_false] at h
+    outQs (handleByCommand s cid m info).1 = outQs s := by
+  unfold handleByCommand
+  simp only [hr, Bool.false_eq_true, if_false]
   by_cases h257 : (m.cmd == 257) = true
-  · simp only [h257, if_true] at h
-    unfold receiveCea at h
-    split at h
-    · simp only [Except.ok.injEq] at h; subst h; simp
-    · split at h
-      · simp at h
-      · simp only [Except.ok.injEq] at h; subst h
-        simp only [outQs_flagReady, outQs_assignPeerConnection]
+  · simp only [h257, if_true]
+    unfold receiveCea
+    split
+    · simp
+    · split
+      · rfl
+      · simp only [outQs_flagReady, outQs_assignPeerConnection]
         exact outQs_modConn _ cid _ (by intro c; exact ⟨rfl, rfl⟩)
-  · simp only [h257, Bool.false_eq_true, if_false] at h
+  · simp only [h257, Bool.false_eq_true, if_false]
     by_cases h280 : (m.cmd == 280) = true
-    · simp only [h280, if_true, receiveDwa, Except.ok.injEq] at h; subst h
+    · simp only [h280, if_true, receiveDwa]
       exact outQs_modConn _ cid _ (by intro c; exact ⟨rfl, rfl⟩)
-    · simp only [h280, Bool.false_eq_true, if_false] at h
+    · simp only [h280, Bool.false_eq_true, if_false]
       by_cases h282 : (m.cmd == 282) = true
-      · simp only [h282, if_true, receiveDpa, Except.ok.injEq] at h; subst h
-        simp only [outQs_demand]
+      · simp only [h282, if_true, receiveDpa, outQs_demand]
         exact outQs_modConn _ cid _ (by intro c; exact ⟨rfl, rfl⟩)
-      · simp only [h282, Bool.false_eq_true, if_false, receiveAppAnswer, Except.ok.injEq] at h; subst h
+      · simp only [h282, Bool.false_eq_true, if_false, receiveAppAnswer]
         split
         · rfl
         · unfold appReceiveAnswer
@@ -70,9 +67,13 @@ theorem C07_no_answer_to_answer (s : St) (cid : Nat) (m : AMsg) (info : MsgInfo)
   unfold receiveMessage
   simp only [hr, Bool.false_and, Bool.false_eq_true, if_false, Bool.and_false, hk, Bool.not_false,
     Bool.and_true, if_true]
-  cases h : handleByCommand (recordOrigin s m info) cid m info with
-  | ok s' => simp only; rw [handleByCommand_answer _ cid m info hr s' h, outQs_recordOrigin]
-  | error e => simp only; exact outQs_recordOrigin s m info
+  have hq := handleByCommand_answer (recordOrigin s m info) cid m info hr
+  rw [outQs_recordOrigin] at hq
+  split
+  · rename_i s' heq
+    rw [heq] at hq; exact hq
+  · rename_i s' e heq
+    rw [heq] at hq; exact hq
 
 theorem C07_config : Config.answerOnlyRequests = true := rfl
 
